@@ -7,7 +7,7 @@
 ID=$1
 W=/var/tmp/verif-scratch-$$-$RANDOM
 git -C /repo worktree add -q --detach "$W" HEAD || exit 2
-trap 'git -C /repo worktree remove --force "$W" >/dev/null 2>&1; rm -rf "$W" /verif/.build/*-alt-*$(basename $W)*' EXIT
+trap 'git -C /repo worktree remove --force "$W" >/dev/null 2>&1; rm -rf "$W" "$(dirname "$(readlink -f "$0")")"/.build/*-alt-*$(basename $W)*' EXIT
 if [ "$2" = "--rpatch" ]; then
   git -C "$W" apply -R "$3" || { echo "reverse patch does not apply"; exit 2; }
   TIER=${4:-quick}
@@ -25,4 +25,4 @@ P
   TIER=${5:-quick}
 fi
 (cd "$W" && GOFLAGS=-mod=mod GOPROXY=off go build ./... ) || echo "MUTANT DOES NOT BUILD"
-cd /verif && VERIF_REPO="$W" ./check $ID $TIER 2>&1 | cut -c1-300 | grep -v '^KNOWN' | head -${LINES_MAX:-4}
+cd "$(dirname "$(readlink -f "$0")")" && VERIF_REPO="$W" ./check $ID $TIER 2>&1 | cut -c1-300 | grep -v '^KNOWN' | head -${LINES_MAX:-4}
